@@ -392,6 +392,7 @@ class SAMIWriter(BaseWriter):
     def write(self, caption_set):
         caption_set = deepcopy(caption_set)
         sami = BeautifulSoup(SAMI_BASE_MARKUP, "lxml-xml")
+        self.open_span = False
 
         caption_set.layout_info = self._relativize_and_fit_to_screen(
             caption_set.layout_info)
